@@ -6,24 +6,34 @@ import CnfgenModel.Cli.DispatchChecks
 namespace Cnfgen.Cli
 open Cnfgen.Gen
 
-theorem dflag_arity_zero_action (o : OptSpec) (h : o.arity = .zero) :
-    (o.action == "PHPArgs") = false := by
+/-- the shape of a flag: one of the three constant-storing actions, not positional -/
+theorem dflag_arity_zero_shape (o : OptSpec) (h : o.arity = .zero) :
+    (o.action = "store_true" ∨ o.action = "store_false" ∨ o.action = "store_const") ∧
+      o.positional = false := by
   unfold OptSpec.arity at h
   split at h
   · rename_i hc
     simp only [Bool.or_eq_true, beq_iff_eq] at hc
-    rcases hc with (hc | hc) | hc <;> simp [hc]
-  · split at h
-    · split at h <;> simp at h
-    · split at h
-      · split at h
-        · simp at h
-        · split at h <;> simp at h
-      · split at h <;> simp at h
+    split at h
+    · rename_i hc2
+      simp only [Bool.and_eq_true, Bool.not_eq_true'] at hc2
+      exact ⟨by rcases hc with (hc | hc) | hc <;> simp [hc], hc2.2⟩
+    · simp at h
+  · exfalso
+    repeat' split at h
+    all_goals simp at h
+
+theorem dflag_arity_zero_action (o : OptSpec) (h : o.arity = .zero) :
+    (o.action == "PHPArgs") = false := by
+  rcases (dflag_arity_zero_shape o h).1 with hc | hc | hc <;> simp [hc]
+
+theorem dflag_arity_zero_action_compose (o : OptSpec) (h : o.arity = .zero) :
+    (o.action == "compose_two_parsers") = false := by
+  rcases (dflag_arity_zero_shape o h).1 with hc | hc | hc <;> simp [hc]
 
 theorem dflag_bindOne (o : OptSpec) (h : o.arity = .zero) : bindOne o [] = .ok [(o.dest, o.flagVal)] := by
   unfold bindOne
-  simp [dflag_arity_zero_action o h, h]
+  simp [dflag_arity_zero_action o h, dflag_arity_zero_action_compose o h, h]
 
 theorem dflag_consumeOpt (o : OptSpec) (h : o.arity = .zero) (chunk : List String) :
     consumeOpt o chunk = .ok ([(o.dest, o.flagVal)], chunk) := by
@@ -85,36 +95,180 @@ theorem dflag_requiredSeen (s : CliSpec) (o : OptSpec) (b : Ns) (hwf : specWF s 
       rw [dflag_any_append b _ _ hne]
     · simp [hr]
 
-/-- a flag in front of the command line: the same parse, with one more (earliest) binding -/
-theorem parseArgs_flag_cons (s : CliSpec) (o : OptSpec) (f : String) (argv : List String)
-    (hwf : specWF s = true) (hfl : isFlag o = true) (hres : optOf s f = some o) :
-    parseArgs s (f :: argv) = (parseArgs s argv).map (fun b => b ++ [(o.dest, o.flagVal)]) := by
+/-! ### the mutually exclusive groups -/
+
+/-- every option of a segment is the option of some token of the command line -/
+theorem dflag_segments_mem (s : CliSpec) :
+    ∀ (argv : List String) (c : List String) (segs : List (OptSpec × List String)),
+      segments s argv = .ok (c, segs) → ∀ p ∈ segs, ∃ t ∈ argv, optOf s t = some p.1 := by
+  intro argv
+  induction argv with
+  | nil =>
+    intro c segs h p hp
+    simp only [segments, Except.ok.injEq, Prod.mk.injEq] at h
+    rw [← h.2] at hp
+    exact absurd hp (List.not_mem_nil)
+  | cons t rest ih =>
+    intro c segs h p hp
+    simp only [segments] at h
+    cases hr : segments s rest with
+    | error e => rw [hr] at h; exact absurd h (by simp)
+    | ok q =>
+      obtain ⟨c', segs'⟩ := q
+      rw [hr] at h
+      cases ho : optOf s t with
+      | none =>
+        by_cases hd : dashLike t = true
+        · simp [classify, ho, hd] at h
+        · simp only [classify, ho, hd, Bool.false_eq_true, if_false, Except.ok.injEq, Prod.mk.injEq] at h
+          rw [← h.2] at hp
+          obtain ⟨t', ht', hopt⟩ := ih c' segs' hr p hp
+          exact ⟨t', List.mem_cons_of_mem _ ht', hopt⟩
+      | some o' =>
+        simp only [classify, ho, Except.ok.injEq, Prod.mk.injEq] at h
+        rw [← h.2] at hp
+        rcases List.mem_cons.1 hp with hp | hp
+        · exact ⟨t, List.mem_cons_self .., by rw [ho, hp]⟩
+        · obtain ⟨t', ht', hopt⟩ := ih c' segs' hr p hp
+          exact ⟨t', List.mem_cons_of_mem _ ht', hopt⟩
+
+theorem dflag_noRival (s : CliSpec) (o : OptSpec) (argv : List String) (hnr : noRival s o argv = true)
+    (t : String) (ht : t ∈ argv) (o' : OptSpec) (ho' : optOf s t = some o') :
+    o.group = "" ∨ o'.group ≠ o.group ∨ o' = o := by
+  unfold noRival at hnr
+  simp only [Bool.or_eq_true, beq_iff_eq, List.all_eq_true] at hnr
+  rcases hnr with h | h
+  · exact Or.inl h
+  · have := h t ht
+    rw [ho'] at this
+    simp only [Bool.or_eq_true, bne_iff_ne, ne_eq, beq_iff_eq] at this
+    exact Or.inr this
+
+theorem dflag_mutexOK_cons (o : OptSpec) (c0 : List String) (segs : List (OptSpec × List String))
+    (h : ∀ p ∈ segs, o.group = "" ∨ p.1.group ≠ o.group ∨ p.1 = o) :
+    mutexOK ((o, c0) :: segs) = mutexOK segs := by
+  rw [Bool.eq_iff_iff]
+  simp only [mutexOK, List.all_cons, List.all_eq_true, Bool.and_eq_true, Bool.or_eq_true, beq_iff_eq,
+    bne_iff_ne, ne_eq]
+  constructor
+  · intro hh p hp q hq
+    exact (hh.2 p hp).2 q hq
+  · intro hh
+    refine ⟨⟨?_, ?_⟩, ?_⟩
+    · exact Or.inr trivial
+    · intro q hq
+      rcases h q hq with h1 | h1 | h1
+      · exact Or.inl (Or.inl h1)
+      · exact Or.inl (Or.inr (fun e => h1 e.symm))
+      · exact Or.inr h1.symm
+    · intro p hp
+      refine ⟨?_, hh p hp⟩
+      rcases h p hp with h1 | h1 | h1
+      · by_cases hg : p.1.group = ""
+        · exact Or.inl (Or.inl hg)
+        · exact Or.inl (Or.inr (by rw [h1]; exact hg))
+      · exact Or.inl (Or.inr h1)
+      · exact Or.inr h1
+
+/-! ### `expand` and a binding that is not a token list -/
+
+theorem dflag_expand_cons (s : CliSpec) (d : String) (v : Val) (rest : Ns) (hv : ∀ l, v ≠ .toks l) :
+    expand s ((d, v) :: rest) =
+      match expand s rest with
+      | .error e => .error e
+      | .ok more => .ok ((d, v) :: more) := by
+  cases v with
+  | toks l => exact absurd rfl (hv l)
+  | _ => simp only [expand] <;> cases expand s rest <;> rfl
+
+theorem dflag_expand_append (s : CliSpec) (d : String) (v : Val) (hv : ∀ l, v ≠ .toks l) (b : Ns) :
+    expand s (b ++ [(d, v)]) = (expand s b).map (fun b' => b' ++ [(d, v)]) := by
+  induction b with
+  | nil => simp [dflag_expand_cons s d v [] hv, expand, Except.map]
+  | cons p rest ih =>
+    obtain ⟨d', v'⟩ := p
+    by_cases hv' : ∃ l, v' = .toks l
+    · obtain ⟨l, rfl⟩ := hv'
+      simp only [List.cons_append, expand, ih]
+      cases composeOpt s d' with
+      | none => simp [Except.map]
+      | some o' =>
+        cases hcp : composeParse s o' l with
+        | error e => simp [hcp, Except.map]
+        | ok inner =>
+          cases expand s rest with
+          | error e => simp [hcp, Except.map]
+          | ok more => simp [hcp, Except.map]
+    · have hv'' : ∀ l, v' ≠ .toks l := fun l e => hv' ⟨l, e⟩
+      rw [List.cons_append, dflag_expand_cons s d' v' _ hv'', dflag_expand_cons s d' v' _ hv'', ih]
+      cases expand s rest with
+      | error e => simp [Except.map]
+      | ok more => simp [Except.map]
+
+theorem dflag_constVal_not_toks (e : Expr) (l : List String) : constVal e ≠ .toks l := by
+  cases e <;> simp [constVal]
+
+theorem dflag_flagVal_not_toks (o : OptSpec) (l : List String) : o.flagVal ≠ .toks l := by
+  unfold OptSpec.flagVal
+  split
+  · simp
+  · split
+    · simp
+    · exact dflag_constVal_not_toks _ l
+
+/-- a flag in front of the command line, before `expand` -/
+theorem dflag_parseRaw_flag_cons (s : CliSpec) (o : OptSpec) (f : String) (argv : List String)
+    (hwf : specWF s = true) (hfl : isFlag o = true) (hres : optOf s f = some o)
+    (hnr : noRival s o argv = true) :
+    parseRaw s (f :: argv) = (parseRaw s argv).map (fun b => b ++ [(o.dest, o.flagVal)]) := by
   have hz : o.arity = .zero := by simpa [isFlag] using hfl
   have ho := (dflag_optOf_mem s f o hres).1
-  unfold parseArgs
+  unfold parseRaw
   rw [dflag_segments_cons s f o argv hres]
   cases hseg : segments s argv with
   | error e => simp [Except.map]
   | ok p =>
     obtain ⟨c0, segs⟩ := p
-    simp only [consumePos, List.isEmpty_nil, List.isEmpty_cons, Bool.not_false, Bool.and_self, if_true,
-      parseSegs, dflag_consumeOpt o hz]
-    cases hcp : consumePos (positionals s) c0 segs.isEmpty with
-    | error e => simp [consumePos] at hcp ⊢; simp [hcp, Except.map]
-    | ok q =>
-      obtain ⟨ps', bs⟩ := q
-      simp only [consumePos] at hcp
-      simp only [hcp]
-      cases hps : parseSegs ps' segs with
-      | error e => simp [Except.map]
-      | ok more =>
-        simp only [List.append_nil, List.append_assoc]
-        have := dflag_requiredSeen s o (more ++ bs) hwf ho hfl
-        simp only [List.append_assoc] at this
-        rw [this]
-        by_cases hr : requiredSeen s (more ++ bs) = true
-        · simp [hr, Except.map]
-        · simp [hr, Except.map]
+    have hmx : mutexOK ((o, c0) :: segs) = mutexOK segs := by
+      apply dflag_mutexOK_cons
+      intro p hp
+      obtain ⟨t, ht, hopt⟩ := dflag_segments_mem s argv c0 segs hseg p hp
+      exact dflag_noRival s o argv hnr t ht p.1 hopt
+    simp only [hmx]
+    by_cases hm : mutexOK segs = true
+    · simp only [hm, Bool.not_true, Bool.false_eq_true, if_false]
+      simp only [consumePos, List.isEmpty_nil, List.isEmpty_cons, Bool.not_false, Bool.and_self, if_true,
+        parseSegs, dflag_consumeOpt o hz]
+      cases hcp : consumePos (positionals s) c0 segs.isEmpty with
+      | error e => simp [consumePos] at hcp ⊢; simp [hcp, Except.map]
+      | ok q =>
+        obtain ⟨ps', bs⟩ := q
+        simp only [consumePos] at hcp
+        simp only [hcp]
+        cases hps : parseSegs ps' segs with
+        | error e => simp [Except.map]
+        | ok more =>
+          simp only [List.append_nil, List.append_assoc]
+          have := dflag_requiredSeen s o (more ++ bs) hwf ho hfl
+          simp only [List.append_assoc] at this
+          rw [this]
+          by_cases hr : requiredSeen s (more ++ bs) = true
+          · simp [hr, Except.map]
+          · simp [hr, Except.map]
+    · simp [hm, Except.map]
+
+/-- a flag in front of the command line: the same parse, with one more (earliest) binding -/
+theorem parseArgs_flag_cons (s : CliSpec) (o : OptSpec) (f : String) (argv : List String)
+    (hwf : specWF s = true) (hfl : isFlag o = true) (hres : optOf s f = some o)
+    (hnr : noRival s o argv = true) :
+    parseArgs s (f :: argv) = (parseArgs s argv).map (fun b => b ++ [(o.dest, o.flagVal)]) := by
+  unfold parseArgs
+  rw [dflag_parseRaw_flag_cons s o f argv hwf hfl hres hnr]
+  cases parseRaw s argv with
+  | error e => simp [Except.map]
+  | ok b =>
+    simp only [Except.map]
+    exact dflag_expand_append s o.dest o.flagVal (dflag_flagVal_not_toks o) b
 
 /-! ### frame: evaluation does not depend on options it does not mention -/
 
@@ -171,6 +325,17 @@ theorem evalE_frame (ns ns' : Ns) (d : String) (h : ∀ k, k ≠ d → ns.lookup
     simp only [Expr.deps, List.mem_append, not_or] at hd
     simp [evalE, ihc hd.1.1, iht hd.1.2, ihe hd.2]
   | star e ih => intro hd; simp only [Expr.deps] at hd; simp [evalE, ih hd]
+  | binop op a b iha ihb =>
+    intro hd
+    simp only [Expr.deps, List.mem_append, not_or] at hd
+    simp [evalE, iha hd.1, ihb hd.2]
+  | order g ih => intro hd; simp only [Expr.deps] at hd; simp [evalE, ih hd]
+  | nil => intro _; rfl
+  | cons a b iha ihb =>
+    intro hd
+    simp only [Expr.deps, List.mem_append, not_or] at hd
+    simp [evalE, iha hd.1, ihb hd.2]
+  | mkgraph k sp ih => intro hd; simp only [Expr.deps] at hd; simp [evalE, ih hd]
   | «opaque» src ds => intro _; rfl
 
 theorem selectTemplate_frame (ns ns' : Ns) (d : String) (h : ∀ k, k ≠ d → ns.lookup k = ns'.lookup k)
@@ -198,6 +363,7 @@ it, otherwise the helper takes the SAME path (same template: same generator), in
 every expression not mentioning the flag's dest to the same value -/
 theorem flag_noninterference_lemma (s : CliSpec) (o : OptSpec) (f : String) (argv : List String)
     (hwf : specWF s = true) (hfl : isFlag o = true) (hres : optOf s f = some o)
+    (hnr : noRival s o argv = true)
     (hng : (guardDeps s).contains o.dest = false) :
     match dispatchTemplate s argv with
     | .error e => dispatchTemplate s (f :: argv) = .error e
@@ -207,7 +373,7 @@ theorem flag_noninterference_lemma (s : CliSpec) (o : OptSpec) (f : String) (arg
   unfold dispatchTemplate
   by_cases hsup : s.supported = true
   · simp only [hsup, Bool.not_true, Bool.false_eq_true, if_false]
-    rw [parseArgs_flag_cons s o f argv hwf hfl hres]
+    rw [parseArgs_flag_cons s o f argv hwf hfl hres hnr]
     cases hp : parseArgs s argv with
     | error e => simp [Except.map]
     | ok b =>
@@ -253,13 +419,14 @@ theorem dispatchTemplate_mem (s : CliSpec) (argv : List String) (t : CallTemplat
 accepted, the two namespaces evaluate every expression not mentioning the flag's dest to the same value -/
 theorem flag_namespace_frame (s : CliSpec) (o : OptSpec) (f : String) (argv : List String)
     (hwf : specWF s = true) (hfl : isFlag o = true) (hres : optOf s f = some o)
+    (hnr : noRival s o argv = true)
     (t t' : CallTemplate) (ns ns' : Ns)
     (h : dispatchTemplate s argv = .ok (t, ns)) (h' : dispatchTemplate s (f :: argv) = .ok (t', ns')) :
     ∀ e : Expr, o.dest ∉ e.deps → evalE ns' e = evalE ns e := by
   unfold dispatchTemplate at h h'
   by_cases hsup : s.supported = true
   · simp only [hsup, Bool.not_true, Bool.false_eq_true, if_false] at h h'
-    rw [parseArgs_flag_cons s o f argv hwf hfl hres] at h'
+    rw [parseArgs_flag_cons s o f argv hwf hfl hres hnr] at h'
     cases hp : parseArgs s argv with
     | error e => simp [hp] at h
     | ok b =>
@@ -279,24 +446,14 @@ theorem flag_namespace_frame (s : CliSpec) (o : OptSpec) (f : String) (argv : Li
 
 /-- the parser's verdict does not depend on a flag in front -/
 theorem flag_parse_verdict (s : CliSpec) (o : OptSpec) (f : String) (argv : List String)
-    (hwf : specWF s = true) (hfl : isFlag o = true) (hres : optOf s f = some o) (e : CliErr) :
+    (hwf : specWF s = true) (hfl : isFlag o = true) (hres : optOf s f = some o)
+    (hnr : noRival s o argv = true) (e : CliErr) :
     parseArgs s (f :: argv) = .error e ↔ parseArgs s argv = .error e := by
-  rw [parseArgs_flag_cons s o f argv hwf hfl hres]
+  rw [parseArgs_flag_cons s o f argv hwf hfl hres hnr]
   cases parseArgs s argv <;> simp [Except.map]
 
 theorem dflag_zero_nonpositional (o : OptSpec) (h : isFlag o = true) : o.positional = false := by
   have hz : o.arity = .zero := by simpa [isFlag] using h
-  unfold OptSpec.arity at hz
-  split at hz
-  · split at hz
-    · rename_i hc; simp only [Bool.and_eq_true, Bool.not_eq_true'] at hc; exact hc.2
-    · simp at hz
-  · split at hz
-    · split at hz <;> simp at hz
-    · split at hz
-      · split at hz
-        · simp at hz
-        · split at hz <;> simp at hz
-      · split at hz <;> simp at hz
+  exact (dflag_arity_zero_shape o hz).2
 
 end Cnfgen.Cli
